@@ -260,6 +260,11 @@ def check(case):
                         tf = pd.read_csv(out / f"{pre}targets.{level}", sep="\t", float_precision="round_trip")
                         dfl = pd.read_csv(out / f"{pre}decoys.{level}", sep="\t", float_precision="round_trip")
                         allr = pd.concat([tf.assign(_t=True), dfl.assign(_t=False)])
+                        handed = dict(zip([f"{name}id{i}" for i in idx], g.tolist()))
+                        dev = [abs(float(s_) - handed[p_]) > 1e-9 * max(1.0, abs(handed[p_])) for p_, s_ in zip(allr["PSMId"], allr["score"])]
+                        require(not any(dev), "file-score-not-own",
+                                f"call {rep}, {pre}{level}: {sum(dev)} rows report a score that is not the score handed over for that PSM "
+                                f"(lower-is-better={lowbetter})")
                         # rank by "goodness": the reported score is the one handed over, so lower is better if requested
                         allr = allr.assign(_good=-allr["score"] if lowbetter else allr["score"]).sort_values("_good", ascending=False, kind="stable")
                         ls, lt = allr["_good"].values.astype(float), allr["_t"].values.astype(bool)
@@ -279,8 +284,8 @@ def check(case):
                                     f"call {rep}, {pre}{level}: {int(bad.sum())} of {len(got)} rows carry a PEP that is not the estimate for their own "
                                     f"score (algorithm {algo}, lower-is-better={lowbetter})")
                             counters["file_rows_checked"] = counters.get("file_rows_checked", 0) + len(got)
-                for g0, g1 in zip(given, score_list):
-                    require(np.array_equal(g0, g1), "scores-mutated", f"assign_confidence changed the caller's score arrays (call {rep}, lower-is-better={lowbetter})")
+                if any(not np.array_equal(g0, g1) for g0, g1 in zip(given, score_list)):
+                    classes.append("caller-score-list-changed")  # not demanded by the property; the second call's files decide
             if len(halves) == 2:
                 _check_rollup_peps(case, algo, tmp / "out1", counters)
                 classes.append("rollup-tool")
